@@ -677,6 +677,38 @@ func intVal(v ssa.Value) int64 {
 	panic("intVal: ssa.Value is not a const int")
 }
 
+// loadReachesUnchanged reports whether user follows load in the same basic block with no
+// instruction in between that can write memory.
+func loadReachesUnchanged(load *ssa.UnOp, user ssa.Instruction) bool {
+	if load.Op != token.MUL || load.Block() == nil || load.Block() != user.Block() {
+		return false
+	}
+	seen := false
+	for _, ins := range load.Block().Instrs {
+		if ins == ssa.Instruction(load) {
+			seen = true
+			continue
+		}
+		if !seen {
+			continue
+		}
+		if ins == user {
+			return true
+		}
+		switch x := ins.(type) {
+		case *ssa.Store, *ssa.MapUpdate, *ssa.Send, *ssa.Select, *ssa.RunDefers, *ssa.Panic:
+			return false
+		case ssa.CallInstruction:
+			return false
+		case *ssa.UnOp:
+			if x.Op == token.ARROW {
+				return false
+			}
+		}
+	}
+	return false
+}
+
 func skipUnusedArrayDeref(v *ssa.UnOp) bool {
 	if v.Op != token.MUL {
 		return false
@@ -923,7 +955,12 @@ func (p *context) compileInstrOrValue(b llssa.Builder, iv instrOrValue, asValue 
 			case *ssa.Const:
 				zero = true
 			case *ssa.UnOp:
-				addr = p.compileValue(b, n.X)
+				// Indexing the memory the array was loaded from is the same as indexing the
+				// loaded value only if that memory cannot have been written in between
+				// (e.g. `for i, v := range arr` loads arr once and indexes the copy in the loop).
+				if loadReachesUnchanged(n, v) {
+					addr = p.compileValue(b, n.X)
+				}
 			}
 			return
 		})
